@@ -3,6 +3,7 @@ from collections import defaultdict
 
 from ..core import (walk, apath, show, const_of, is_null, last_field, strip_addr, truth_of, AnalysisBroken, same_expr)
 from ..locks import lockinfo
+from .. import guards as G
 
 EXPLANATION = ("C18: ring discipline of nni_lmq / nni_msgq (every cursor increment used as an index is wrapped before the "
                "next use, cursor fields are only assigned wrapped values, slot stores are guarded by len < cap and slot "
@@ -333,6 +334,20 @@ def rule_r7(ctx):
         r.ob(f, "cursor wraps id_max_val -> id_min_val")
     else:
         ctx.fail(r, f, "cursor wrap missing", f.line, "id_dyn_val is not wrapped from id_max_val to id_min_val")
+    # inside the allocator the cursor is (re)seeded only when it was never used, and otherwise only stepped / wrapped
+    fresh = G.rel_edges(f, lambda n: (last_field(n) or "").endswith(".id_dyn_val"), lambda n: const_of(n) == 0, "==")
+    wrapped = G.rel_edges(f, lambda n: (last_field(n) or "").endswith(".id_dyn_val"),
+                          lambda n: (last_field(n) or "").endswith(".id_max_val"), ">")
+    for t in f.assigns():
+        if not (t.node["lhs"].get("k") == "mem" and (last_field(t.node["lhs"]) or "").endswith(".id_dyn_val")) or t.node.get("op") != "=":
+            continue
+        if (fresh and G.dominated(f, (t.b, t.i), fresh)) or (wrapped and G.dominated(f, (t.b, t.i), wrapped)):
+            r.ob(f, "cursor assigned line %s only when unused or wrapping" % t.line)
+        else:
+            ctx.fail(r, f, "cursor re-seeded on an ordinary allocation", t.line,
+                     "id_dyn_val is assigned at line %s outside the first-use (id_dyn_val == 0) and wrap (id_dyn_val > id_max_val) "
+                     "cases: every allocation starts the search again, so an id that was just released is handed out at once and "
+                     "stale handles name a new object" % t.line)
     # who may write the cursor
     ALLOWED = {"nni_id_alloc", "nni_id_map_init"}
     for g in prog.functions:
@@ -397,6 +412,26 @@ def rule_r8(ctx):
                              % (show(t.node["lhs"]), t.line, ext, stale[0].line))
                 else:
                     r.ob(f, "%s uses the %s stored at line %s" % (show(t.node["lhs"]), ext.split(".")[1], fresh[0].line if fresh else "?"))
+    # the extent saved for walking the *old* ring is its allocation size, not something derived from the capacity
+    for f in prog.fns_in("core/lmq.c", "core/msgqueue.c"):
+        if f.cfg_failed:
+            continue
+        for b in f.blocks.values():
+            c = f.cond(b.id) if b.term and len(b.succs) == 2 else None
+            if c is None or c.get("k") != "bin" or c["op"] not in ("==", ">=") or c["rhs"].get("k") != "var":
+                continue
+            lhs_v = G.resolve(f, c["lhs"], (b.id, len(b.elems))) if c["lhs"].get("k") == "var" else c["lhs"]
+            if not (lhs_v is not None and (cursor_key(lhs_v) in CURSOR_FIELDS or
+                                           (c["lhs"].get("k") == "var" and any(cursor_key(x) in CURSOR_FIELDS for _, x in G.var_defs(f, c["lhs"]["n"]) if x is not None)))):
+                continue
+            ext = G.resolve(f, c["rhs"], (b.id, len(b.elems)))
+            lf = last_field(ext) if ext is not None and ext.get("k") == "mem" else None
+            if lf in ("nni_msgq.mq_alloc", "nni_lmq.lmq_alloc"):
+                r.ob(f, "old-ring wrap compares with %s" % lf)
+            else:
+                ctx.fail(r, f, "old ring walked with the wrong extent", f.line_of(b.id, 0),
+                         "the cursor %s wraps at %s = %s, which is not the allocation size of the ring it walks: entries are read "
+                         "from the wrong slots (lost or duplicated messages)" % (show(c["lhs"]), show(c["rhs"]), show(ext)))
     if n < 1:
         raise AnalysisBroken("no cursor computed from a ring extent in a function that replaces it")
 
